@@ -296,126 +296,147 @@ Proof. vm_compute. repeat split; reflexivity. Qed.
 From TP Require Import Base.PyOps Base.PyOps2 Base.PyObj Base.PyOpsDerive Gen.DeriveSrc Struct.DeriveSrcView Struct.DeriveSrcProofs.
 
 Theorem C12_src_partial :
-  forall (k : klass) (inh : option bool) (pre post : list (pystr * pyval)),
+  forall (k : klass) (inh eu : option bool) (pre post : list (pystr * pyval)),
          others_ok pre = true ->
          others_ok post = true ->
          src_ok k = true ->
          forall cname : option pystr,
-         x <- PartialMeta_getitem (klass_heap k inh pre post) (op_class OpPartial) (class_arg cname);;
-         decode_newclass k x = derive_stmt inh k OpPartial cname.
+         x <- PartialMeta_getitem (klass_heap k inh eu pre post) (op_class OpPartial) (class_arg cname);;
+         decode_newclass k x = derive_stmt_eu inh eu k OpPartial cname.
 Proof. exact Partial_src_is_model. Qed.
 
 Theorem C12_src_extend :
-  forall (k : klass) (inh : option bool) (pre post : list (pystr * pyval)),
+  forall (k : klass) (inh eu : option bool) (pre post : list (pystr * pyval)),
          others_ok pre = true ->
          others_ok post = true ->
          src_ok k = true ->
          forall cname : option pystr,
-         x <- ExtendMeta_getitem (klass_heap k inh pre post) (op_class OpExtend) (class_arg cname);;
-         decode_newclass k x = derive_stmt inh k OpExtend cname.
+         x <- ExtendMeta_getitem (klass_heap k inh eu pre post) (op_class OpExtend) (class_arg cname);;
+         decode_newclass k x = derive_stmt_eu inh eu k OpExtend cname.
 Proof. exact Extend_src_is_model. Qed.
 
 Theorem C12_src_allrequired :
-  forall (k : klass) (inh : option bool) (pre post : list (pystr * pyval)),
+  forall (k : klass) (inh eu : option bool) (pre post : list (pystr * pyval)),
          others_ok pre = true ->
          others_ok post = true ->
          src_ok k = true ->
          defaults_normal k = true ->
          forall cname : option pystr,
          x <-
-         AllFieldsRequiredMeta_getitem (klass_heap k inh pre post) (op_class OpAllRequired)
-           (class_arg cname);; decode_newclass k x = derive_stmt inh k OpAllRequired cname.
+         AllFieldsRequiredMeta_getitem (klass_heap k inh eu pre post) (op_class OpAllRequired)
+           (class_arg cname);; decode_newclass k x = derive_stmt_eu inh eu k OpAllRequired cname.
 Proof. exact AllFieldsRequired_src_is_model. Qed.
 
 Theorem C12_src_omit :
-  forall (k : klass) (inh : option bool) (pre post : list (pystr * pyval)),
+  forall (k : klass) (inh eu : option bool) (pre post : list (pystr * pyval)),
          others_ok pre = true ->
          others_ok post = true ->
          src_ok k = true ->
          forall (b : bool) (ns : list pystr) (cname : option pystr),
          name_given cname = true ->
-         x <- OmitMeta_getitem (klass_heap k inh pre post) (op_class (OpOmit ns)) (sel_arg b ns cname);;
-         decode_newclass k x = derive_stmt inh k (OpOmit ns) cname.
+         x <- OmitMeta_getitem (klass_heap k inh eu pre post) (op_class (OpOmit ns)) (sel_arg b ns cname);;
+         decode_newclass k x = derive_stmt_eu inh eu k (OpOmit ns) cname.
 Proof. exact Omit_src_is_model. Qed.
 
 Theorem C12_src_pick :
-  forall (k : klass) (inh : option bool) (pre post : list (pystr * pyval)),
+  forall (k : klass) (inh eu : option bool) (pre post : list (pystr * pyval)),
          others_ok pre = true ->
          others_ok post = true ->
          src_ok k = true ->
          forall (b : bool) (ns : list pystr) (cname : option pystr),
          name_given cname = true ->
-         x <- PickMeta_getitem (klass_heap k inh pre post) (op_class (OpPick ns)) (sel_arg b ns cname);;
-         decode_newclass k x = derive_stmt inh k (OpPick ns) cname.
+         x <- PickMeta_getitem (klass_heap k inh eu pre post) (op_class (OpPick ns)) (sel_arg b ns cname);;
+         decode_newclass k x = derive_stmt_eu inh eu k (OpPick ns) cname.
 Proof. exact Pick_src_is_model. Qed.
 
 Theorem C12_src_structure_omit :
-  forall (k : klass) (inh : option bool) (pre post : list (pystr * pyval)),
+  forall (k : klass) (inh eu : option bool) (pre post : list (pystr * pyval)),
          others_ok pre = true ->
          others_ok post = true ->
          src_ok k = true ->
          forall (ns : list pystr) (cname : option pystr),
          name_given cname = true ->
          x <-
-         Structure_omit (klass_heap k inh pre post) (ref o_clazz) (PTuple (map PStr ns))
-           (class_name_kw cname);; decode_newclass k x = derive_stmt inh k (OpOmit ns) cname.
+         Structure_omit (klass_heap k inh eu pre post) (ref o_clazz) (PTuple (map PStr ns))
+           (class_name_kw cname);; decode_newclass k x = derive_stmt_eu inh eu k (OpOmit ns) cname.
 Proof. exact Structure_omit_src_is_model. Qed.
 
 Theorem C12_src_structure_pick :
-  forall (k : klass) (inh : option bool) (pre post : list (pystr * pyval)),
+  forall (k : klass) (inh eu : option bool) (pre post : list (pystr * pyval)),
          others_ok pre = true ->
          others_ok post = true ->
          src_ok k = true ->
          forall (ns : list pystr) (cname : option pystr),
          name_given cname = true ->
          x <-
-         Structure_pick (klass_heap k inh pre post) (ref o_clazz) (PTuple (map PStr ns))
-           (class_name_kw cname);; decode_newclass k x = derive_stmt inh k (OpPick ns) cname.
+         Structure_pick (klass_heap k inh eu pre post) (ref o_clazz) (PTuple (map PStr ns))
+           (class_name_kw cname);; decode_newclass k x = derive_stmt_eu inh eu k (OpPick ns) cname.
 Proof. exact Structure_pick_src_is_model. Qed.
 
 (* all five operators in one statement *)
 Theorem C12_src_operators :
-  forall (k : klass) (inh : option bool) (pre post : list (pystr * pyval)) (o : op) (as_list : bool)
+  forall (k : klass) (inh eu : option bool) (pre post : list (pystr * pyval)) (o : op) (as_list : bool)
            (cname : option pystr),
          others_ok pre = true ->
          others_ok post = true ->
          src_ok k = true ->
          op_ok k o cname = true ->
-         x <- run_operator (klass_heap k inh pre post) o as_list cname;; decode_newclass k x =
-         derive_stmt inh k o cname.
+         x <- run_operator (klass_heap k inh eu pre post) o as_list cname;; decode_newclass k x =
+         derive_stmt_eu inh eu k o cname.
 Proof. exact operators_src_is_model. Qed.
 
 (* the model's derive = the source's operator, decoded, followed by the ordinary class definition *)
 Theorem C12_src_derive_factors :
   forall (re_match : N -> pystr -> bool) (e : env) (gd : guards) (g : genv) 
-           (k : klass) (pre post : list (pystr * pyval)) (o : op) (as_list : bool)
+           (k : klass) (eu : option bool) (pre post : list (pystr * pyval)) (o : op) (as_list : bool)
            (cname : option pystr),
          others_ok pre = true ->
          others_ok post = true ->
          src_ok k = true ->
          op_ok k o cname = true ->
          derive re_match e gd g k o cname =
-         x <- run_operator (klass_heap k (bases_ignore_none g k) pre post) o as_list cname;;
+         x <- run_operator (klass_heap k (bases_ignore_none g k) eu pre post) o as_list cname;;
          s <- decode_newclass k x;; define re_match e gd g s.
 Proof. exact derive_is_source_then_define. Qed.
 
 (* a source that is not a Structure class: TypeError from every operator *)
 Theorem C12_src_not_structure :
-  forall (k : klass) (inh : option bool) (pre post : list (pystr * pyval)),
+  forall (k : klass) (inh eu : option bool) (pre post : list (pystr * pyval)),
          k_is_struct k = false ->
          forall (b : bool) (ns : list pystr) (cname : option pystr),
-         PartialMeta_getitem (klass_heap k inh pre post) (op_class OpPartial) (class_arg cname) =
+         PartialMeta_getitem (klass_heap k inh eu pre post) (op_class OpPartial) (class_arg cname) =
          Raise TypeError /\
-         AllFieldsRequiredMeta_getitem (klass_heap k inh pre post) (op_class OpAllRequired)
+         AllFieldsRequiredMeta_getitem (klass_heap k inh eu pre post) (op_class OpAllRequired)
            (class_arg cname) = Raise TypeError /\
-         ExtendMeta_getitem (klass_heap k inh pre post) (op_class OpExtend) (class_arg cname) =
+         ExtendMeta_getitem (klass_heap k inh eu pre post) (op_class OpExtend) (class_arg cname) =
          Raise TypeError /\
-         OmitMeta_getitem (klass_heap k inh pre post) (op_class (OpOmit ns)) (sel_arg b ns cname) =
+         OmitMeta_getitem (klass_heap k inh eu pre post) (op_class (OpOmit ns)) (sel_arg b ns cname) =
          Raise TypeError /\
-         PickMeta_getitem (klass_heap k inh pre post) (op_class (OpPick ns)) (sel_arg b ns cname) =
+         PickMeta_getitem (klass_heap k inh eu pre post) (op_class (OpPick ns)) (sel_arg b ns cname) =
          Raise TypeError.
 Proof. exact operators_src_not_structure. Qed.
 
+(* _init_class_dict as the source has it NOW: the copied own keys, then `_ignore_none` and
+   `_enable_undefined_value` exactly as the source class SEES them -- own or inherited, True or False, absent when
+   no class of its MRO has the attribute.  (Both decide how a field of the class treats None; before the repair
+   of C12-enable-undefined-not-carried only `_ignore_none` was copied.) *)
+Theorem C12_src_init_class_dict_carries_none_options :
+  forall (k : klass) (inh eu : option bool) (pre post : list (pystr * pyval)),
+         others_ok pre = true ->
+         others_ok post = true ->
+         init_class_dict (klass_heap k inh eu pre post) (ref o_clazz) =
+         Ok (dict_of (init_core k (effective_ignore_none inh k) eu)).
+Proof. exact init_class_dict_src. Qed.
+
+(* the carried attribute is a known bool class attribute: StructMeta.__new__ builds the same class with and
+   without it (the model's [klass] is about fields, required names, the signature) *)
+Theorem C12_define_with_undefined :
+  forall (re_match : N -> pystr -> bool) (e : env) (gd : guards) (g : genv) (eu : option bool) (s : classstmt),
+         define re_match e gd g (with_undefined eu s) = define re_match e gd g s.
+Proof. exact define_with_undefined. Qed.
+
+Print Assumptions C12_src_init_class_dict_carries_none_options.
+Print Assumptions C12_define_with_undefined.
 Print Assumptions C12_src_partial.
 Print Assumptions C12_src_extend.
 Print Assumptions C12_src_allrequired.
